@@ -94,9 +94,6 @@ impl<'h> PathObjectPatternGenerator<'h> {
     pub fn generate(&mut self) -> Vec<Pattern> {
         let orig_pattern = self.generate_();
 
-        #[cfg(rosu_pp_verif)]
-        crate::mania::convert::verif_gen::trace_slider_end(self);
-
         if orig_pattern.hit_objects.len() == 1 {
             return vec![orig_pattern];
         }
